@@ -1860,6 +1860,7 @@ func rulePlaceholderUnquoted(c *Ctx, r *Report) {
 			n++
 			key := fname(fn) + "/take-arg"
 			good := false
+			disagree := ""
 			var look func(v ssa.Value, depth int)
 			look = func(v ssa.Value, depth int) {
 				dataSlice(v, func(x ssa.Value) bool {
@@ -1872,6 +1873,7 @@ func rulePlaceholderUnquoted(c *Ctx, r *Report) {
 						if idx := paramIndex(fn, pr); idx >= 0 {
 							sites := c.callSitesOf(fn)
 							all := len(sites) > 0 && !c.usedAsValue(fn)
+							var first map[int64]bool
 							for _, cs := range sites {
 								if idx >= len(cs.Common().Args) {
 									all = false
@@ -1884,6 +1886,34 @@ func rulePlaceholderUnquoted(c *Ctx, r *Report) {
 									all = false
 								}
 								good = saved
+								// (with fix F62) the callers agree on WHICH kinds of token count as quoted
+								kinds := map[int64]bool{}
+								var collect func(v ssa.Value, d int)
+								collect = func(v ssa.Value, d int) {
+									dataSlice(v, func(v ssa.Value) bool {
+										if y, _, kk, ok := cmpConst(v); ok && isEngNamed(y.Type(), "tokenKind") {
+											kinds[kk] = true
+										}
+										if phi, ok := v.(*ssa.Phi); ok && d < 3 { // a flag set in the arms of a switch
+											for _, cond := range controlConds(phi) {
+												collect(cond, d+1)
+											}
+										}
+										return true
+									})
+								}
+								collect(cs.Common().Args[idx], 0)
+								if first == nil {
+									first = kinds
+								} else if len(kinds) != len(first) {
+									disagree = c.at(cs.(ssa.Instruction))
+								} else {
+									for k := range kinds {
+										if !first[k] {
+											disagree = c.at(cs.(ssa.Instruction))
+										}
+									}
+								}
 							}
 							if all {
 								good = true
@@ -1901,6 +1931,11 @@ func rulePlaceholderUnquoted(c *Ctx, r *Report) {
 			}
 			for f := range c.factsAt(in.Block()) {
 				look(f.cond, 0)
+			}
+			if good && disagree != "" {
+				r.bad(rule, key+"/callers-agree", disagree, desc, "the callers of the substituting helper do not compare the token kind with the same set of kinds: a kind of quoting that one caller knows (a double-quoted \"?\" under double_quotes=atom) is a placeholder for the other")
+			} else if good {
+				r.ok(rule, key+"/callers-agree", c.at(in), desc, "every caller of the substituting helper decides `quoted` from the same kinds of token", false)
 			}
 			if good {
 				r.ok(rule, key, c.at(in), desc, "under a condition computed from <token kind> == tokenQuoted", true)
